@@ -9,6 +9,8 @@ LIST=/tmp/fv-campaign-$$.list
 : > "$LIST"
 for d in seeded/C*; do
   [ -f "$d/patch.diff" ] || continue
+  # ONLY_MISSING=1: keep results that are already there (an interrupted campaign is continued)
+  if [ "${ONLY_MISSING:-0}" = 1 ] && grep -q "caught by" "$d/check-result-final.txt" 2>/dev/null; then continue; fi
   id=$(basename "$d"); echo "seed $d/patch.diff ${id%%-*}" >> "$LIST"
 done
 python3 - >> "$LIST" <<'PY'
@@ -16,7 +18,7 @@ import json
 for m in json.load(open('mutants/index.json')):
     print('mutant', 'mutants/%s.diff' % m['name'], ' '.join(m['expected']))
 PY
-: > mutants/RESULTS-final.txt
+[ "${ONLY_MISSING:-0}" = 1 ] || : > mutants/RESULTS-final.txt
 for k in $(seq 1 "$JOBS"); do
   (
     awk -v k="$k" -v n="$JOBS" 'NR % n == k % n' "$LIST" | while read -r kind patch props; do
